@@ -150,6 +150,72 @@ def run(cx, rep):
     if hd:
         txt = [s(n["argument"]) for n in walk(hd["function"]) if n["type"] == "ReturnStatement"]
         rep.ob("C16.2", "hasDefinition-reads-table", len(txt) == 1 and defs_field in txt[0], "hasDefinition must consult the definition table (found %s)" % txt, mod.loc(hd))
+    # ---------------------------------------------------------------- C16.5
+    rep.rule("C16.5", "collected definition bodies are only read by the final export")
+    # which methods of the context hand out a stored body (a read of the table that is not a presence test and not a
+    # write); what schema() returns must not depend on them: whether a body is already there depends on which parser
+    # was printed first and on where in a recursion the caller is
+    value_readers = set()
+    if defs_field:
+        for mname, m in spc.methods.items():
+            fn = m["function"]
+            if fn.get("body") is None:
+                continue
+            for n in walk(fn):
+                if n["type"] == "MemberExpression" and s(n) == "this.%s" % defs_field:
+                    # classify the use of this occurrence
+                    use = "value"
+                    for par in walk(fn):
+                        if par["type"] == "BinaryExpression" and par["operator"] == "in" and unparen(par["right"]) is n:
+                            use = "presence"
+                        elif par["type"] == "AssignmentExpression" and any(x is n for x in walk(par["left"])):
+                            use = "write"
+                        elif par["type"] == "UnaryExpression" and par["operator"] == "delete" and any(x is n for x in walk(par["argument"])):
+                            use = "write"
+                        elif par["type"] == "CallExpression" and s(par["callee"]).endswith("hasOwnProperty.call") and par["arguments"] and unparen(par["arguments"][0]["expression"]) is n:
+                            use = "presence"
+                        elif par["type"] == "CallExpression" and s(par["callee"]) == "Object.hasOwn" and par["arguments"] and unparen(par["arguments"][0]["expression"]) is n:
+                            use = "presence"
+                    if use == "value":
+                        value_readers.add(mname)
+    # close over methods of the context that call a value reader and return its result
+    changed = True
+    while changed:
+        changed = False
+        for mname, m in spc.methods.items():
+            if mname in value_readers or m["function"].get("body") is None:
+                continue
+            for n in walk(m["function"]):
+                mc = method_call(n) if n["type"] == "CallExpression" else None
+                if mc and s(mc[0]) == "this" and mc[1] in value_readers:
+                    value_readers.add(mname)
+                    changed = True
+    rep.ob("C16.5", "readers", bool(value_readers), "no method of SchemaPrintingContext reads the definition table (export missing?)", mod.loc(spc.node),
+           sample={"methods_handing_out_stored_bodies": sorted(value_readers)})
+    n_sites = 0
+    for cname, c in sorted(mod.classes.items()):
+        if c is spc:
+            continue
+        for mname, m in sorted(c.methods.items()):
+            fn = m["function"]
+            if fn.get("body") is None:
+                continue
+            for n in walk(fn):
+                mc = method_call(n) if n["type"] == "CallExpression" else None
+                if mc and mc[1] in value_readers and ("rintingContext" in s(mc[0]) or s(mc[0]) in ("pc", "printingContext")):
+                    n_sites += 1
+                    is_facade = "BeffParser" in c.implements or cname in ("SchemaPrintingContext",)
+                    in_schema = mname in schema_reachable_methods(c) if "schema" in c.methods else False
+                    rep.ob("C16.5", "%s.%s/%s" % (cname, mname, mc[1]), not in_schema,
+                           "%s.%s is reached from schema() and reads a collected definition body through %s(): the schema it returns depends on what the context has collected so far, i.e. on the order in which parsers were printed" % (cname, mname, mc[1]),
+                           mod.loc(n))
+    for fname, d in sorted(mod.functions.items()):
+        if d.get("body") is None:
+            continue
+        for n in walk(d):
+            mc = method_call(n) if n["type"] == "CallExpression" else None
+            if mc and mc[1] in value_readers and "rintingContext" in s(mc[0]):
+                rep.ob("C16.5", "%s/%s" % (fname, mc[1]), False, "%s reads a collected definition body through %s()" % (fname, mc[1]), mod.loc(n))
     # ---------------------------------------------------------------- C16.4
     rep.rule("C16.4", "schema printing keeps no state on the validator instances (it is a function of the type and the context)")
     MUT = {"set", "add", "push", "delete", "clear", "splice", "pop", "shift", "unshift"}
